@@ -17,6 +17,7 @@ type EvalCtx struct {
 	frame  *FrameState // for source-level names (may be nil)
 	pkg    string      // package path for resolving unqualified type names
 	inOld  bool
+	preferFrame bool // loop invariants: source-level current values shadow entry values
 	events []Event
 }
 
@@ -153,6 +154,14 @@ func (c *EvalCtx) resolveType(ty string) types.Type {
 }
 
 func (c *EvalCtx) lookup(name string) (Val, bool) {
+	if c.preferFrame && c.frame != nil && !c.inOld {
+		if v, ok := c.frame.names[name]; ok {
+			if v.K == KAddr {
+				return c.x.load(c.p, c.snap(), v.A), true
+			}
+			return v, true
+		}
+	}
 	if v, ok := c.vars[name]; ok {
 		return v, true
 	}
@@ -627,6 +636,14 @@ func (c *EvalCtx) evalCall(e *ECall) Val {
 			c.fail("spec %s: %d arguments expected", e.Fn, len(sf.Params))
 		}
 		var sig, args []string
+		for _, rd := range sf.Reads {
+			d := *c
+			d.pkg = sf.Pkg
+			for _, kk := range d.readKeys(rd) {
+				sig = append(sig, kk[1])
+				args = append(args, eng.heapName(c.p, c.snap(), kk[0], kk[1]))
+			}
+		}
 		for i, pr := range sf.Params {
 			s, _ := c.specSort(pr.Type)
 			sig = append(sig, s)
@@ -643,6 +660,62 @@ func (c *EvalCtx) evalCall(e *ECall) Val {
 	}
 	c.fail("unknown function %s", e.Fn)
 	return Val{}
+}
+
+// readKeys resolves a reads descriptor (T.f | elems(T) | mapof(T)) to heap keys with their sorts.
+func (c *EvalCtx) readKeys(rd string) [][2]string {
+	eng := c.x.e
+	var out [][2]string
+	if strings.HasPrefix(rd, "elems(") {
+		t := c.resolveType(strings.TrimSuffix(strings.TrimPrefix(rd, "elems("), ")"))
+		if t == nil {
+			switch strings.TrimSuffix(strings.TrimPrefix(rd, "elems("), ")") {
+			case "int":
+				t = types.Typ[types.Int]
+			case "float64":
+				t = types.Typ[types.Float64]
+			default:
+				c.fail("reads: unknown type in %s", rd)
+			}
+		}
+		for _, lf := range eng.leaves(t) {
+			out = append(out, [2]string{elemKey(t, lf.Path), arrSort("Int", arrSort("Int", lf.Sort))})
+		}
+		return out
+	}
+	i := strings.LastIndex(rd, ".")
+	if i < 0 {
+		c.fail("reads: bad descriptor %s", rd)
+	}
+	t := c.resolveType(rd[:i])
+	if t == nil {
+		c.fail("reads: unknown type %s", rd[:i])
+	}
+	tkey := typeKey(t)
+	if tc := eng.cs.Types[tkey]; tc != nil {
+		if g := tc.Ghost[rd[i+1:]]; g != nil {
+			ks, vs, isMap := ghostSorts(eng, g.Type)
+			if isMap {
+				return [][2]string{{fieldKey(tkey, g.Name, ""), arrSort("Int", arrSort(ks, vs))}}
+			}
+			return [][2]string{{fieldKey(tkey, g.Name, ""), arrSort("Int", vs)}}
+		}
+	}
+	st := structOf(t)
+	if st == nil {
+		c.fail("reads: %s is not a struct", rd[:i])
+	}
+	for j := 0; j < st.NumFields(); j++ {
+		if st.Field(j).Name() == rd[i+1:] {
+			for _, lf := range eng.leaves(st.Field(j).Type()) {
+				out = append(out, [2]string{fieldKey(tkey, rd[i+1:], lf.Path), arrSort("Int", lf.Sort)})
+			}
+		}
+	}
+	if len(out) == 0 {
+		c.fail("reads: no field %s", rd)
+	}
+	return out
 }
 
 func atoi(s string) int {
